@@ -275,6 +275,9 @@ func layerOrder(s string, direct retry.Backoff) string {
 	var want retry.Backoff = direct
 	var err error
 	nl := rng.Intn(4)
+	if rng.Intn(6) == 0 {
+		nl = 4 + rng.Intn(6) // more layers than the builder's initial capacity
+	}
 	for i := 0; i < nl; i++ {
 		switch rng.Intn(3) {
 		case 0:
